@@ -168,7 +168,31 @@ func (c *Ctx) errorChecked(call *ssa.Call) (bool, string) {
 			default:
 				for _, s := range b.Succs {
 					if s == t.nilSucc && t.nilSucc != t.nonNil {
-						return false, "the failing edge rejoins the success path at " + c.InstrPos(last)
+						// a named result set on the failing edge and returned by the one return both edges share:
+						// the return is judged by the value it has when entered over this edge
+						if _, isRet := s.Instrs[len(s.Instrs)-1].(*ssa.Return); !isRet {
+							// ... or (the same idiom inlined into its caller) merged as a non-nil error into the
+							// variable the code behind the merge goes on to test
+							carried := false
+							for i, p := range s.Preds {
+								if p != b {
+									continue
+								}
+								for _, ins := range s.Instrs {
+									ph, ok := ins.(*ssa.Phi)
+									if !ok {
+										break
+									}
+									if isErrorType(ph.Type()) && c.nonNilError(ph.Edges[i], errV, 0) && len(errTests(ph)) > 0 {
+										carried = true
+									}
+								}
+							}
+							if !carried {
+								return false, "the failing edge rejoins the success path at " + c.InstrPos(last)
+							}
+							continue
+						}
 					}
 					st = append(st, visit{s, b})
 				}
